@@ -14,11 +14,6 @@ def fltOfChar : Char → Option Flt
 def fltsOf (s : String) : Option (List Flt) :=
   if s == "-" then some [] else s.toList.mapM fltOfChar
 
-def csOf : String → Option CS
-  | "G" => some .gray | "RGB" => some .rgb | "CMYK" => some .cmyk | "g" => some .inlGray
-  | "rgb" => some .inlRgb | "I" => some .other | "N" => some .none
-  | _ => none
-
 def namesOf (s : String) : Option (List Bytes) :=
   if s == "-" then some [] else (s.splitOn ",").mapM bytesOfHex
 
@@ -65,9 +60,14 @@ def step (line : String) : String :=
     | some x => toString (align32 x)
     | none => "bad-op"
   | ["export", flt, cs, bits, w, h, name, existing, data] =>
-    match fltsOf flt, csOf cs, bits.toNat?, w.toNat?, h.toNat?, bytesOfHex name, namesOf existing, bytesOfHex data with
+    let csl : Option (List (Option InlineDict.Val)) :=
+      if cs == "none" then some [none] else if cs == "empty" then some []
+      else match parseVals (cs.splitOn ",") [] with
+        | some (vs, []) => some (vs.map some)
+        | _ => none
+    match fltsOf flt, csl, bits.toNat?, w.toNat?, h.toNat?, bytesOfHex name, namesOf existing, bytesOfHex data with
     | some fl, some cs, some bits, some w, some h, some name, some ex, some data =>
-      match exportImage ⟨fl, cs, bits, w, h, name, data⟩ ex with
+      match exportImage ⟨fl, InlineDict.csClass cs, InlineDict.cmykMember cs, bits, w, h, name, data⟩ ex with
       | .ok (nm, file) => "OK " ++ hexOrDash nm ++ " " ++ hexOrDash file
       | .error e => "E:" ++ e.toString
     | _, _, _, _, _, _, _, _ => "bad-op"
